@@ -170,7 +170,7 @@ CHECKS = {
         technique='symbolic execution of the real x86 decoder on symbolic byte strings (z3): exhaustive path sets per opcode row; witness replay for rendering/truncation/stream clauses',
         text='Decoder: for the rows of the live opcode trie x prefix sets, prefixes||opcode||11 symbolic bytes run through the real x86mnemo.dis; on every path the outcome is None or an instruction, '
              'no exception escapes, 0 < l <= len, no byte at index >= l is read (SBytes read monitor), the reported raw bytes equal the consumed input (SMT). At path witnesses (concrete, labelled so): both renderings, '
-             'every strict truncation is absent, stream offsets 0/1/5, and the decoder\'s length is not larger than objdump\'s (over-read). Assembler totality: lines generated from the lexical alphabet (mnemonics, registers, size keywords, punctuation, numbers, names; <= 3 free tokens next to fixed operands) go through the real public asm() with every number symbolic: a list or the documented ValueError on every path.',
+             'every strict truncation is absent, stream offsets 0/1/5, and the decoder\'s length is not larger than objdump\'s (over-read). Assembler totality: lines generated from the lexical alphabet (mnemonics, registers, size keywords, punctuation, numbers, names; <= 3 free tokens next to fixed operands), and address expressions of 1 to 3 terms (registers, scaled registers, numbers, names joined by + and -) in 4 (quick) / 8 (thorough) operand contexts, go through the real public asm() with every number symbolic: a list or the documented ValueError on every path.',
         note='Trusted: z3, proxies. Bounds: 11 symbolic bytes, <= 2 prefixes per set incl. doubled size prefixes (66 66, 67 67), SIB restricted to 8 representatives; rendering, truncation, stream and over-read clauses at witnesses only.',
         design='5/C10', engine='E2'),
 }
